@@ -7,6 +7,9 @@ CONSTANTS
   K = 4
   DerivedMax = 12
   MaxFields = 12
+  MaxConsts = 3
+  CKinds = {"int", "text", "tuple", "msgid", "method"}
   Kinds = {"?", "H", "I", "q", "20s", "varlenH", "varlenHutf8", "bits", "payload", "payload-list", "address", "arrayH-q"}
 INVARIANT RoundTripDef
 INVARIANT DefaultsUsed
+INVARIANT ConstsOffWire
